@@ -89,14 +89,20 @@ def end_shift(x, k):
 
 
 def ident(x):
-    """identity of an end point for snapshots"""
+    """identity of an end point for snapshots (public surface only: serial/frequency, or the printed form of an open end)"""
     if getattr(x, "needs_resolve", False):
-        return ("ctx", x._resolve_from, x._offset)
+        return ("ctx", str(x))
     return (type(x).__name__, int(x.serial))
 
 
+def ctx_str(e):
+    """printed form of a context-dependent end point, e.g. <>.start+1"""
+    side = "start" if e[1] == "start_date" else "end"
+    return "<>." + side + (f"{e[2]:+g}" if e[2] else "")
+
+
 def span_snapshot(s):
-    return (ident(s._start), ident(s._end), s._step, bool(s.needs_resolve))
+    return (ident(s.start), ident(s.end), s.step, bool(s.needs_resolve))
 
 
 class DatesWorld(World):
@@ -557,8 +563,8 @@ class DatesWorld(World):
             bad(f"needs_resolve {real.needs_resolve}, model contextual={m.contextual}")
         for label, end, mend in (("start", real.start, m.a), ("end", real.end, m.b)):
             if isinstance(mend, (tuple, list)):
-                if ident(end) != ("ctx", mend[1], mend[2]):
-                    bad(f"{label} is {ident(end)}, model {tuple(mend)}")
+                if ident(end) != ("ctx", ctx_str(mend)):
+                    bad(f"{label} is {ident(end)}, model {ctx_str(mend)}")
             else:
                 if getattr(end, "needs_resolve", False) or letter(end) != m.f or int(end.serial) != mend:
                     bad(f"{label} is {end!r}, model ({m.f},{mend})")
@@ -607,7 +613,7 @@ class DatesWorld(World):
             self.snaps[recv] = span_snapshot(real)
             # shared end points: other spans were built from this span's periods
             for h, (o, om) in self.spans.items():
-                if h != recv and (o._start is real._start or o._end is real._end or o._start is real._end or o._end is real._start):
+                if h != recv and (o.start is real.start or o.end is real.end or o.start is real.end or o.end is real.start):
                     self.probes["inplace_op_on_span_sharing_endpoints"] += 1
                     break
         elif new is not None:
